@@ -222,6 +222,23 @@ def check_obs(res, cid, spec, script, obs, stats, setcoef_expect):
                         return
 
 
+def gen_conformal_case(r, cid, fam):
+    """integrate() against the grid's own quadrature weights x values under a conformal (arcsin) map, optionally with a linear transform: every
+    family has its own integrate(); the coefficient route (integrateHierarchicalFunctions) does not carry the conformal correction and is not compared"""
+    spec = gl.rand_spec(r, family=fam, max_dims=2)
+    if spec["outs"] == 0:
+        spec["outs"] = 1
+    if fam == "global":
+        spec["rule"] = r.choice(gl.GLOBAL_NESTED)
+        spec.pop("ab", None)
+    lines = ["case " + cid, gl.make_cmd(spec)]
+    if r.random() < 0.4:
+        lines.append(gl.trans_cmd(gl.rand_transform(r, spec)))
+    lines.append("conformal g " + " ".join(str(r.randint(1, 6)) for _ in range(spec["dims"])))
+    lines += ["load g " + r.choice(["smooth", "poly", "affine"]), "probe g 2 %d" % r.randint(1, 10 ** 6), "dump g meta points values qw", "integ g", "diffall g"]
+    return spec, lines
+
+
 def run(res, tier, seed, replay_script=None):
     props = vlib.coq_props(PID)
     vlib.proof_coverage(res, PID, props, "cd coq && make Props/Properties_C04.vo && coqc -Q . TV Props/Properties_C04.v", TRUSTED)
@@ -247,6 +264,10 @@ def run(res, tier, seed, replay_script=None):
         for i in range(n):
             cid = "q%d" % i
             specs[cid], scripts[cid] = gen_case(r, cid, tier)
+        rc_ = vlib.rng(seed, PID + "-conformal")
+        for i in range({"quick": 24, "thorough": 200}[tier]):
+            cid = "cf%d" % i
+            specs[cid], scripts[cid] = gen_conformal_case(rc_, cid, ["sequence", "global", "localp", "wavelet"][i % 4])
     lines = [l for cid in scripts for l in scripts[cid]]
     rc, cases, so, se = gl.run_scripts(drv, lines, wd, "hist", timeout=1500, case_timeout=30)
     if rc != 0:
